@@ -765,7 +765,8 @@ class ProgramDB:
         if module is None:
             return None
         key = (id(expr), func.qname if func else "")
-        if key in self._type_cache:
+        cacheable = hasattr(expr, "_parent")  # only nodes of the parsed trees have stable ids
+        if cacheable and key in self._type_cache:
             return self._type_cache[key]
         if key in self._in_progress:
             return None
@@ -774,7 +775,8 @@ class ProgramDB:
             res = self._type_of(expr, func, module)
         finally:
             self._in_progress.discard(key)
-        self._type_cache[key] = res
+        if cacheable:
+            self._type_cache[key] = res
         return res
 
     def _type_of(self, expr: ast.AST, func: FuncInfo | None, module: ModuleInfo) -> Ty | None:
@@ -858,6 +860,11 @@ class ProgramDB:
                 if isinstance(expr.slice, ast.Constant) and isinstance(expr.slice.value, int) and -len(base.args) <= expr.slice.value < len(base.args):
                     return base.args[expr.slice.value]
                 return base.elem()
+            return None
+        if isinstance(expr, ast.BinOp) and isinstance(expr.op, (ast.Sub, ast.BitOr, ast.BitAnd, ast.BitXor)):
+            lt, rt = self.type_of(expr.left, func, module), self.type_of(expr.right, func, module)
+            if (lt is not None and lt.kind == "set") or (rt is not None and rt.kind == "set"):
+                return Ty("set")
             return None
         if isinstance(expr, ast.IfExp):
             return _union([t for t in (self.type_of(expr.body, func, module), self.type_of(expr.orelse, func, module)) if t])
@@ -949,11 +956,14 @@ class ProgramDB:
         module = module or (func.module if func else None)
         assert module is not None
         key = id(call)
-        if key in self._call_cache:
+        cacheable = hasattr(call, "_parent")
+        if cacheable and key in self._call_cache:
             return self._call_cache[key]
-        self._call_cache[key] = []
+        if cacheable:
+            self._call_cache[key] = []
         res = self._resolve_callable(call.func, func, module, call)
-        self._call_cache[key] = res
+        if cacheable:
+            self._call_cache[key] = res
         return res
 
     def _callee_from_sym(self, sym: tuple[str, Any] | None, via: str) -> list["Callee"]:
